@@ -16,6 +16,25 @@ KF = set(x for x in os.environ.get("VERIF_KF", "").split(",") if x)
 
 Leaf = Union[None, bool, int, str]
 
+
+def _real_lru_cache() -> None:
+    """The engine models functools.lru_cache as a cache that always misses (libimpl/functoolslib.py). A memoised function in
+    the code under analysis would then never show what it remembers, so that model is withdrawn: the real C wrapper runs."""
+    import sys
+
+    core = sys.modules.get("crosshair.core")
+    if core is None:
+        return
+    try:
+        from functools import _lru_cache_wrapper
+
+        core._PATCH_REGISTRATIONS.pop(_lru_cache_wrapper.__call__, None)
+    except Exception:  # noqa: BLE001
+        pass
+
+
+_real_lru_cache()
+
 WHY: List[str] = []
 
 
